@@ -1,0 +1,52 @@
+//go:build verif
+
+package core
+
+import (
+	jschema "github.com/jsightapi/jsight-schema-go-library"
+
+	"github.com/jsightapi/jsight-api-go-library/catalog"
+	"github.com/jsightapi/jsight-api-go-library/directive"
+)
+
+// Verification hooks (build tag "verif"): read-only accessors and exports of
+// unexported functions. Nothing here is compiled into a normal build.
+
+func (core *JApiCore) VerifDirectives() []*directive.Directive { return core.directives }
+
+func (core *JApiCore) VerifDirectivesWithPastes() []*directive.Directive {
+	return core.directivesWithPastes
+}
+
+func (core *JApiCore) VerifMacros() map[string]*directive.Directive { return core.macro }
+
+func (core *JApiCore) VerifUserTypes() *catalog.UserSchemas { return core.userTypes }
+
+func (core *JApiCore) VerifRules() map[string]jschema.Rule { return core.rules }
+
+// VerifRawPathVariables returns (prefix path, parameter name) of every collected raw path variable.
+func (core *JApiCore) VerifRawPathVariables() [][2]string {
+	r := make([][2]string, 0, len(core.rawPathVariables))
+	for _, v := range core.rawPathVariables {
+		for _, p := range v.parameters {
+			r = append(r, [2]string{string(p.path), p.parameter})
+		}
+	}
+	return r
+}
+
+func VerifDescription(b []byte) ([]byte, error) { return description(b) }
+
+func VerifValidateIncludeFileName(s string) error { return validateIncludeFileName(s) }
+
+func VerifSplitPath(p string) []string { return splitPath(p) }
+
+// VerifPathParameters returns the (prefix, name) pairs computed by pathParameters.
+func VerifPathParameters(p string) [][2]string {
+	pp := pathParameters(p)
+	r := make([][2]string, 0, len(pp))
+	for _, x := range pp {
+		r = append(r, [2]string{string(x.path), x.parameter})
+	}
+	return r
+}
